@@ -299,6 +299,7 @@ def run(ctx):
         fam_claims += 1
         if oracle.int_family_value(impl[i]) != want:
             fam_bad.append((i, want))
+    fam_bad.sort(key=lambda t: (abs(fam_info[lines[t[0]]][1]) + abs(fam_info[lines[t[0]]][2]), lines[t[0]]))   # smallest operands first
     # (E) report: property failures on the implementation first
     reported = set()
     for i, want in fam_bad[:1]:
